@@ -22,7 +22,7 @@ def interior_reversals(signal):
     out = []
     for j in range(1, len(runs) - 1):
         a, b, c = runs[j - 1][0], runs[j][0], runs[j + 1][0]
-        if (b - a) * (c - b) < 0:
+        if (b > a and c < b) or (b < a and c > b):      # by comparison, not by a product that can underflow
             out.append((runs[j][1], b))
     return out
 
